@@ -1,6 +1,7 @@
 package rules
 
 import (
+	"go/token"
 	"fmt"
 	"go/constant"
 	"go/types"
@@ -529,15 +530,18 @@ func (e *Env) c20BashStrip(trees map[string]*parse.Tree, impl map[string]*ssa.Fu
 	ob := r.Ob("R5", "bashTemplate:strip≙formatter-prefix", "the replayed command is the recorded command with every occurrence of the formatter's parent-dir prefix removed (the script runs in the working directory, not in a temp dir)")
 	// the prefix the formatter adds
 	prefix := ""
-	if pp := p.Func("prependParentDirPath"); pp != nil {
-		sy := p.NewSymbolizer(nil)
-		for _, b := range pp.Blocks {
-			for _, in := range b.Instrs {
-				if rt, ok := in.(*ssa.Return); ok {
-					fl := sy.InFunc(pp, rt.Results[0]).Flat()
-					if len(fl) == 2 && fl[0].Op == "lit" {
-						prefix = fl[0].Lit
-					}
+	// the literal that the command formatter puts in front of relative input paths: the constant left operand
+	// of the string concatenation reached in the {i:} arm of the formatter (whatever the helper is called)
+	if fi := e.formatter(); fi != nil && fi.g != nil && len(fi.problems) == 0 {
+		res := fi.arm("i", false, false)
+		for _, n := range fi.g.Nodes {
+			bo, ok := n.Instr.(*ssa.BinOp)
+			if !ok || bo.Op != token.ADD || res.Reaches(func(m *core.Node) bool { return m == n }) == nil {
+				continue
+			}
+			if k, ok := bo.X.(*ssa.Const); ok && k.Value != nil && k.Value.Kind() == constant.String {
+				if v := constant.StringVal(k.Value); strings.HasSuffix(v, "/") && strings.HasPrefix(v, ".") {
+					prefix = v
 				}
 			}
 		}
